@@ -33,9 +33,32 @@ def two_dummy_progs(ctx):
 def case_program(cases, charsigned):
     """Pack single-operation cases into one MiniC program: operands are file-scope non-constant objects."""
     g, body = [], []
+    def operand(tn, word=None, frec=None):
+        if tn in ("float", "double"):
+            return flit(tn, frec["neg"], frec["mag"])
+        return {"k": "lit", "t": T(tn), "v": word}
     for i, c in enumerate(cases):
         a, b = "a%d" % i, "b%d" % i
+        if c["k"] == "f2i":
+            g.append(s_decl(a, TY(c["lt"]), i_e(operand(c["lt"], frec=c["fa"]))))
+            body.append(s_obs(cast(T(c["rt"]), var(a))))
+            continue
+        if c["k"] == "fbin":
+            isf = lambda x: isinstance(x, dict)
+            g.append(s_decl(a, TY(c["lt"]), i_e(operand(c["lt"], c["xa"] if not isf(c["xa"]) else None, c["xa"] if isf(c["xa"]) else None))))
+            g.append(s_decl(b, TY(c["rt"]), i_e(operand(c["rt"], c["xb"] if not isf(c["xb"]) else None, c["xb"] if isf(c["xb"]) else None))))
+            e = bin_(c["op"], var(a), var(b))
+            body.append(s_obs(e if c["t"] == "int" else cast(T("llong"), e)))
+            continue
         g.append(s_decl(a, T(c["lt"]), i_e({"k": "lit", "t": T(c["lt"]), "v": c["a"]})))
+        if c["k"] == "cast2":
+            e = cast(TY(c["rt"]), cast(T(c["mt"]), var(a)))
+            body.append(s_obs(e if c["rt"] not in ("float", "double") else cast(T("llong"), e)))
+            continue
+        if c["k"] == "i2f":
+            body.append(s_obs(cast(T(c["lt"]), cast(F(c["rt"]), var(a)))))
+            body.append(s_obs(bin_("<", cast(F(c["rt"]), var(a)), flit(c["rt"], False, 0))))
+            continue
         if c["k"] in ("bin", "casg"):
             g.append(s_decl(b, T(c["rt"]), i_e({"k": "lit", "t": T(c["rt"]), "v": c["b"]})))
         if c["k"] == "bin":
@@ -135,7 +158,11 @@ def opcases(ctx, objdir, runtime):
         if kind != "ok":
             ctx.violation("opcase:%s" % kind, "single-operation program: %s" % detail, {"target": t, "source": src})
             continue
-        exp = [str(from_w8(c["v"])) for c in chunk]
+        exp = []
+        for c in chunk:
+            exp.append(str(from_w8(c["v"])))
+            if c["k"] == "i2f":
+                exp.append("1" if c["neg"] else "0")
         if lines != exp:
             # audit the spec on this program before blaming cproc
             au = audit_native(ctx, src, "au" + vlib.sha(src)[:10], runtime, cs)
@@ -143,12 +170,16 @@ def opcases(ctx, objdir, runtime):
                 if alines != exp:
                     raise vlib.MachineryError("SPEC-AUDIT: %s disagrees with CSem on a single-operation program (rc=%s %s)\nexpected %s\n%s got %s\n%s" % (
                         cc, rc, se, exp[:80], cc, alines[:80], src[:3000]))
-            for i, c in enumerate(chunk):
-                got = lines[i] if i < len(lines) else None
-                if got != exp[i]:
+            pos = 0
+            for c in chunk:
+                i = pos
+                pos += 2 if c["k"] == "i2f" else 1
+                got = lines[i:pos] if lines is not None and pos <= len(lines) else None
+                if got != exp[i:pos]:
+                    got = got[0] if got and len(got) == 1 else got
                     key = "opcase:%s:%s:%s:%s" % (c["k"], c.get("op", "cast"), c["lt"], c.get("rt", ""))
                     ctx.violation(key, "%s %s (%s %s, %s %s) on %s: IL computes %s, C semantics give %s" % (
-                        c["k"], c.get("op", ""), c["lt"], from_w8(c["a"]), c.get("rt", ""), from_w8(c.get("b", [0] * 8)), t, got, exp[i]),
+                        c["k"], c.get("op", ""), c["lt"], c.get("a") and from_w8(c["a"]), c.get("rt", ""), from_w8(c.get("b", [0] * 8)), t, got, exp[i:pos]),
                         {"case": c, "target": t, "source": src})
         elif audited < (3 if ctx.quick else 40):
             audited += 1
@@ -156,13 +187,13 @@ def opcases(ctx, objdir, runtime):
                 if alines != exp:
                     raise vlib.MachineryError("SPEC-AUDIT: %s disagrees with CSem (rc=%s %s) on\n%s\nexpected %s got %s" % (cc, rc, se, src[:3000], exp[:80], alines[:80]))
         for c in chunk:
-            ctx.count("%s|%s|%s|%s|%s|%s|%s" % (c["k"], c.get("op"), c["lt"], c.get("rt"), c["a"], c.get("b"), t),
-                      nontrivial=(c["a"] != [0] * 8))
+            ctx.count("%s|%s|%s|%s|%s|%s|%s|%s" % (c["k"], c.get("op"), c["lt"], c.get("rt"), c.get("mt"), c.get("a") or c.get("fa") or c.get("xa"), c.get("b") or c.get("xb"), t),
+                      nontrivial=(c.get("a") != [0] * 8))
         ctx.validated(1)
     ctx.cov["opcase_programs"] = len(jobs)
     if cases:
         c = cases[len(cases) // 3]
-        ctx.sample({"single-op case": {k: (from_w8(v) if isinstance(v, list) else v) for k, v in c.items()}})
+        ctx.sample({"single-op case": {k: (from_w8(v) if isinstance(v, list) and len(v) == 8 else v) for k, v in c.items()}})
     return results
 
 
